@@ -35,7 +35,7 @@ def model(c, runs):
                  cfg=cfg_text(constants=dict(BASE, UsersB="@{}", Daemons={"dB_out"}, OpsA={"sendall", "shutdown_write"}, SendN=3), invariants=[], **LIVE)),
             dict(name="simulate (spec -> code)", module="Channel_Gen", simulate=True, expect="behaviours",
                  cfg=cfg_text(spec="GSpec", constants=GEN, invariants=["GenEmit"]),
-                 kw=dict(workers=1, simulate="num=%d" % (60 if c.quick else 800), extra=["-depth", "150", "-seed", str(c.seed + 1)]))]
+                 kw=dict(workers=1, simulate="num=%d" % (60 if c.quick else 500), extra=["-depth", "150", "-seed", str(c.seed + 1)]))]
     if not c.quick:
         jobs += [
             dict(name="liveness, pinned loop: a sendall never ends", module="Channel", expect="<liveness>",
@@ -143,7 +143,7 @@ def run(c):
             prog["lost"] = p["lost"]
         progs.append(prog)
     progs += programs(rnd, 8 if c.quick else 150)
-    deadline = time.time() + (9 if c.quick else 300)
+    deadline = time.time() + (9 if c.quick else 200)
     explored = dc.explore_into(runs, c, progs, 12 if c.quick else 150, 5 if c.quick else 40, deadline, bound=1 if c.quick else 2,
                                max_steps=1500)
     laps["explore_s"] = round(time.time() - t0 - laps["model+replay_s"], 1)
